@@ -870,6 +870,39 @@ fn run_case_inner(tier: &str, seed: u64, idx: u64) -> CaseOut {
             }
         }
         stop.store(true, Ordering::Relaxed);
+        // An attempt has to FAIL: one that neither fails nor succeeds but waits for the owner to go
+        // away is no refusal. The owner stays open and idle here; every attacker makes at most a few
+        // more attempts of a few milliseconds each. If they have not come back after 20 s, during
+        // the last 10 of which not a single attempt was begun, they are blocked inside one.
+        let wait_start = std::time::Instant::now();
+        let mut last_attempts = attempts.load(Ordering::Relaxed);
+        let mut last_change = std::time::Instant::now();
+        let mut blocked = false;
+        while attackers.iter().any(|a| !a.is_finished()) {
+            std::thread::sleep(Duration::from_millis(5));
+            watch::tick();
+            let now = attempts.load(Ordering::Relaxed);
+            if now != last_attempts {
+                last_attempts = now;
+                last_change = std::time::Instant::now();
+            }
+            if wait_start.elapsed() > Duration::from_secs(20) && last_change.elapsed() > Duration::from_secs(10) {
+                blocked = true;
+                break;
+            }
+        }
+        if blocked {
+            let stuck = attackers.iter().filter(|a| !a.is_finished()).count();
+            out.violate("C17/attempt-neither-failed-nor-succeeded-while-the-database-was-open",
+                json!({"ctx": ctx, "round": round, "attackers_still_inside_open_or_destroy": stuck, "waited_s": wait_start.elapsed().as_secs(),
+                    "note": "the owner was open and idle; the attempts only came back after it had been closed"}));
+            // let them out: close the owner (they will get the lock one after the other)
+            drop(owner);
+            for a in attackers {
+                let _ = a.join();
+            }
+            return out;
+        }
         for a in attackers {
             let _ = a.join();
         }
